@@ -79,11 +79,15 @@ class Sym:
             r = self._def_term(ds[0], depth + 1, st2)
         else:
             ts = []
+            bbs = []
             for d in ds:
                 t = self._def_term(d, depth + 1, st2)
-                if t not in ts:
-                    ts.append(t)
-            r = ts[0] if len(ts) == 1 else ("phi", l, tuple(ts))
+                ts.append(t)
+                bbs.append(d[1])
+            if len(set(ts)) == 1:
+                r = ts[0]
+            else:
+                r = ("phi", l, tuple(ts), tuple(bbs))
         if not _has_cut(r):
             self._memo[key] = r
         return r
@@ -188,7 +192,7 @@ class Sym:
             return simplify(("bin", rv["op"], self.operand(rv["a"], depth, stack),
                              self.operand(rv["b"], depth, stack)), self)
         if k == "un":
-            return simplify(("un", rv["op"], self.operand(rv["a"], depth, stack)), self)
+            return simplify(("un", rv["op"], self.operand(rv["a"], depth, stack), rv.get("aty")), self)
         if k == "cast":
             return simplify(("cast", self.operand(rv["op"], depth, stack), rv["ty"], rv["from"],
                              rv["ck"]), self)
@@ -302,6 +306,12 @@ def simplify(t, sym=None):
                 return b[1][int(t[2])]
             except (ValueError, IndexError):
                 return t
+        if b[0] == "bin" and b[1] in ("AddWithOverflow", "SubWithOverflow", "MulWithOverflow"):
+            base = b[1][:3]
+            if t[2] == "0":
+                return simplify(("bin", base, b[2], b[3]), sym)
+            if t[2] == "1":
+                return ("ovf", base, b[2], b[3])
         if b[0] == "down":
             inner = b[1]
             # payload of `?`
@@ -317,10 +327,12 @@ def simplify(t, sym=None):
         return t
     if tag == "bin":
         op, a, b = t[1], t[2], t[3]
-        if a[0] == "const" and b[0] == "const" and isinstance(a[1], int) and isinstance(b[1], int):
-            v = _fold(op, a[1], b[1], a[2])
+        av, bv = _cval(a), _cval(b)
+        if av is not None and bv is not None:
+            ty = a[2] if a[0] == "const" else a[3]
+            v = _fold(op, av, bv, ty)
             if v is not None:
-                return ("const", v, a[2] if op not in CMP_OPS else "bool")
+                return ("const", v, ty if op not in CMP_OPS else "bool")
         # checked arithmetic yields (value, overflow) tuples: keep as is
         return t
     if tag == "cast":
@@ -341,6 +353,14 @@ def simplify(t, sym=None):
 
 
 CMP_OPS = {"Eq", "Ne", "Lt", "Le", "Gt", "Ge"}
+
+
+def _cval(t):
+    if t[0] == "const" and isinstance(t[1], int):
+        return t[1]
+    if t[0] == "cname" and isinstance(t[2], int):
+        return t[2]
+    return None
 
 
 def _fold(op, a, b, ty):
@@ -455,7 +475,12 @@ def show(t, depth=0):
     if tag in ("unwrap", "residual", "from_residual"):
         return "%s(%s)" % (tag, show(t[1], d))
     if tag == "phi":
-        return "phi(%s)" % " | ".join(show(a, d) for a in t[2])
+        alts = []
+        for a in t[2]:
+            x = show(a, d)
+            if x not in alts:
+                alts.append(x)
+        return "phi(%s)" % " | ".join(alts)
     if tag == "local":
         return "_%d" % t[1]
     if tag == "subslice":
